@@ -161,6 +161,7 @@ type Block struct {
 	Absent      map[string]bool   // string(addr) of validators of the previous height that did not sign
 	Misbehavior []abci.Misbehavior
 	Txs         [][]byte // if nil, PrepareProposal builds them
+	MempoolTxs  [][]byte // what CometBFT's mempool would hand to PrepareProposal
 }
 
 func FakeBlockHash(height int64, txs [][]byte) []byte {
@@ -204,7 +205,7 @@ func (n *Node) Prepare(b *Block) (*abci.ResponsePrepareProposal, error) {
 	}
 	return n.App.PrepareProposal(&abci.RequestPrepareProposal{
 		Height: h, Time: n.Time.Add(b.TimeDelta), ProposerAddress: prop,
-		MaxTxBytes: 4 << 20, LocalLastCommit: abci.ExtendedCommitInfo{},
+		MaxTxBytes: 4 << 20, LocalLastCommit: abci.ExtendedCommitInfo{}, Txs: b.MempoolTxs,
 		Misbehavior: b.Misbehavior,
 	})
 }
@@ -411,3 +412,52 @@ func (d Dump) Diff(o Dump) []string {
 }
 
 var _ = context.Background
+
+// CopyDB deep-copies an in-memory database.
+func CopyDB(db dbm.DB) dbm.DB {
+	out := dbm.NewMemDB()
+	it, err := db.Iterator(nil, nil)
+	if err != nil {
+		panic(err)
+	}
+	defer it.Close()
+	for ; it.Valid(); it.Next() {
+		if err := out.Set(bytes.Clone(it.Key()), bytes.Clone(it.Value())); err != nil {
+			panic(err)
+		}
+	}
+	return out
+}
+
+// Fork creates an independent replica of the node at its last committed state: a deep
+// copy of the database under a *new* App (which is exactly the restart path) and a
+// forked execution layer.
+func (n *Node) Fork() (*Node, error) {
+	el, err := n.EL.Fork()
+	if err != nil {
+		return nil, err
+	}
+	f, err := NewNode(n.Cfg, el, CopyDB(n.DB))
+	if err != nil {
+		el.Close()
+		return nil, err
+	}
+	f.Height, f.Time, f.LastHash = n.Height, n.Time, bytes.Clone(n.LastHash)
+	f.ValSet = n.ValSet.Clone()
+	return f, nil
+}
+
+// CloseAll closes the node and its execution layer.
+func (n *Node) CloseAll() {
+	n.Close()
+	n.EL.Close()
+}
+
+// InsertMempool decodes a transaction and inserts it into the application mempool.
+func (n *Node) InsertMempool(txBytes []byte) error {
+	tx, err := n.TxCfg.TxDecoder()(txBytes)
+	if err != nil {
+		return err
+	}
+	return n.App.Mempool().Insert(n.Ctx(), tx)
+}
